@@ -34,7 +34,8 @@ def gen_docs(seed, tier):
     # BYTE-SIZE structures with explicitly positioned members in every listing order; terminated MIN-MAX objects with
     # values around the termination sequence (fixed values: FIXED_VALUES[name])
     for fam, it in (("enum-struct-layout-orders", ((c, v) for c, v, _ in G.enum_struct_layout_orders())),
-                    ("enum-minmax-terminated", G.enum_minmax_terminated())):
+                    ("enum-minmax-terminated", G.enum_minmax_terminated()), ("enum-masked-holes", G.enum_masked_holes()),
+                    ("enum-field-layouts", G.enum_field_layouts())):
         seen, comps = {}, []
         for c, v in it:
             if c.name not in seen:
@@ -86,7 +87,7 @@ def run_cases(seed, tier, on_case):
                     vals = []
             elif family == "enum-texttable":
                 vals = [{"x": t, "y": 0xA5} for _, _, t in c.params[1].dop.compu.scales]
-            elif family in ("enum-struct-layout-orders", "enum-minmax-terminated"):
+            elif family in ("enum-struct-layout-orders", "enum-minmax-terminated", "enum-masked-holes", "enum-field-layouts"):
                 vals = FIXED_VALUES.get(c.name, [])
             elif family == "enum-mux-orders":
                 try:
